@@ -434,7 +434,7 @@ def analyse_run(prog, F, W, run):
                     continue
                 region = cfg_.reachable_blocks(s)
                 # a rejecting edge: every path from it throws (cannot reach a normal return)
-                normal = False
+                normal = (s == cfg_.exit)
                 for rb in region:
                     blk = cfg_.blocks[rb]
                     if cfg_.exit in [x for x in blk.succ if x is not None]:
@@ -455,6 +455,17 @@ def analyse_run(prog, F, W, run):
                 if hf is not None and hf.body is not None and hf.j.get('rec_id') == run.j.get('rec_id') and \
                         any(x.k == 'CXXThrowExpr' for x in hf.walk()):
                     throwing += [(b, c, ix, hf, hc) for (b, c, ix, _f, _h) in throwing_of(hf)]
+        # ... or in a constructor of the class (directly or through such a helper): no object exists for k = 0, so run() is
+        # never entered
+        for cf in prog.functions:
+            if cf.g == BASE + '::BaseApproxSpannerAlgorithm' and not cf.implicit and cf.j.get('rec_id') == run.j.get('rec_id') and cf.body is not None and cf.cfg is not None:
+                throwing += [(b, c, ix, cf, ('ctor', None, cf)) for (b, c, ix, _f, _h) in throwing_of(cf)]
+                for hc in cf.walk():
+                    if hc.k == 'CXXMemberCallExpr' and hc.callee and hc.callee.get('in_repo') and hc.callee_id is not None:
+                        hf = prog.fn_of_fref(hc.callee_id)
+                        if hf is not None and hf.body is not None and hf.j.get('rec_id') == run.j.get('rec_id') and \
+                                any(x.k == 'CXXThrowExpr' for x in hf.walk()):
+                            throwing += [(b, c, ix, hf, ('ctor', hc, cf)) for (b, c, ix, _f, _h) in throwing_of(hf)]
         # only guards that are integer expressions over k count as "the" precondition check of a helper
         def _evaluable(c_, f_):
             e_ = {}
@@ -484,7 +495,14 @@ def analyse_run(prog, F, W, run):
         rejects0 = bool(v0) == (ix == 0)
         rejects_pos = [bool(v) == (ix == 0) for v in vs]
         # the guard must dominate every use of the output iterator
-        if hcall is None:
+        if isinstance(hcall, tuple):
+            _, hc_, cf_ = hcall
+            ccfg = cf_.cfg
+            if hc_ is None:
+                dom = ccfg.block_dominates(b.id, ccfg.exit)
+            else:
+                dom = bool(ccfg.pos_of(hc_)) and ccfg.block_dominates(ccfg.pos_of(hc_)[0], ccfg.exit) and gfn.cfg.block_postdominates(b.id, gfn.cfg.entry)
+        elif hcall is None:
             dom = all(cfg.block_dominates(b.id, cfg.pos_of(u)[0]) for u in uses if cfg.pos_of(u))
         else:
             # the helper is entered before every use of the iterator, and inside it the guard is on every path
@@ -1184,6 +1202,9 @@ def comparator_by_orderings(prog, W, lam):
                 if x not in atoms:
                     atoms.append(x)
         if 'lt' not in atoms and 'gt' not in atoms:
+            ptypes = [((prog.base_type(d.get('ty')) or {}).get('canon') or '') for d in lf.params]
+            if any(not t.replace('const ', '').lstrip().startswith('boost::detail::edge_desc_impl') for t in ptypes):
+                return None, 'the sorted elements are not edge descriptors (`%s`): a sort key carried with the element is outside the idiom table' % (ptypes[0][:40] if ptypes else '?')
             return 'other', 'the comparator never compares the two weights of the caller\'s map'
         if len(atoms) > 14:
             return None, 'too many atoms'
@@ -1241,6 +1262,9 @@ def comparator_verdict(prog, W, lam):
                 if atom(W.world(s.args()[0])) == 'G':
                     who = ex.var_of(s.args()[1])
             sides.append(who)
+        if None in sides and not any(x.k in ex.CALL_KINDS and x.callee and (x.callee['g'] == 'boost::get' or x.callee['name'] == 'operator[]')
+                                     for y in e.c for x in [y.strip_all()] + list(y.walk())):
+            return None     # no map lookup at all (sort keys carried with the elements, helpers): not this idiom
         a, b = lf.param_ids
         if sides == [a, b]:
             return 'asc' if e.op == '<' else ('desc' if e.op in ('>', '>=') else None)
